@@ -696,11 +696,12 @@ def r11_8(prog, out):
         # (1) the flag is raised before the detach request can be sent
         ok = False
         where = None
+        cond_topic = False
         for b in prog.facts.lib_bodies():
             ebi = prog.info(b.id)
             for e in prog.effects(b.id):
-                if e.chain or e.kind != "atomic_store" or not e.cells or e.cells[-1] != cell:
-                    continue
+                if e.chain or e.kind not in ("atomic_store", "atomic_rmw") or not e.cells or e.cells[-1] != cell:
+                    continue            # store(true) / swap(true) / fetch_or(true)
                 st = ebi.body.blocks[e.bb].term
                 if st.k != "call" or len(st.args) < 2 or st.args[1].const_bool() is not True:
                     continue
@@ -713,8 +714,21 @@ def r11_8(prog, out):
                         sites.append(ed.bb)
                 if sites and all(ebi.cfg.dominates(e.bb, x) for x in sites):
                     ok = True
+                elif sites:
+                    # raised only when the topic is still there (`if topic.is_some() { flag }`): without a topic no detach request
+                    # is sent and no attach can arrive either
+                    sl0 = Slicer(prog)
+                    for blk in ebi.body.blocks:
+                        if blk.cleanup or blk.term.k != "switch" or blk.term.discr is None or blk.term.discr.place is None:
+                            continue
+                        if ebi.cfg.dominates(blk.idx, e.bb) and any(c.split("::")[-1] in ("upgrade", "is_some", "is_none") for c in sl0.of(b.id, blk.term.discr).calls) \
+                                and any("Weak" in c and c.endswith("::upgrade") for c in sl0.of(b.id, blk.term.discr).calls):
+                            cond_topic = True
         if ok:
             out.holds(key, bi.loc(lbb), "the deletion marks the subscription before it sends the detach request, and the attach handler does not attach a marked subscription")
+        elif cond_topic:
+            out.undecided(key, prog.loc(*where), "the flag is raised only when the topic is still alive; whether every path that sends the detach request raises it first "
+                          "depends on the same test being repeated (not decided)")
         elif where is None:
             out.violation(key, bi.loc(lbb), "the attach handler consults a flag of the subscription that no deletion ever raises")
         else:
@@ -804,6 +818,12 @@ def _r11_9(prog, out, prop):
             st = ebi.body.blocks[e.bb].term
             if st.k == "call" and len(st.args) >= 2 and st.args[1].const_bool() is True:
                 writers.append((b.id, e.bb))
+    # a function that nobody calls raises nothing
+    called = set()
+    for b in prog.facts.lib_bodies():
+        for ed in prog.edges(b.id):
+            called.add(ed.dst)
+    writers = [(w, wbb) for (w, wbb) in writers if root_of(w) in d_roots or w in called or root_of(w) in called]
     accessors = set()
     for b in prog.facts.lib_bodies():
         if b.local_ty(0) == "bool" and any(e.kind == "atomic_load" and e.cells and e.cells[-1] == cell for e in prog.own_effects(b.id)):
@@ -902,3 +922,85 @@ def r11_9_c12(prog, out):
 @rule("C14", "R11.9", "whoever decides on the handle's `deletion has begun` latch can rely on it: only the handle's own deletion raises it, unconditionally", floor=1)
 def r11_9_c14(prog, out):
     _r11_9(prog, out, "C14")
+
+
+def _r11_10(prog, out):
+    """A map from resource names to handles is a registry: a request that finds a handle in it is served by that incarnation.
+    The managers' maps (and the topic's attachment set) are kept in step with creation and deletion by R10.x / R11.x.  Any
+    other such map -- a cache of resolved handles in the API layer, a look-aside table -- is a second registry: unless every
+    removal from the manager's map also removes from it, a request issued after DeleteSubscription + CreateSubscription of
+    the same name is served by the deleted incarnation (its deliveries never come, its acks go nowhere), however the cache
+    tries to tell a dead handle from a live one.  Instances: every map field of the crate from a name (or a string) to a
+    handle, outside the managers and the topic actor."""
+    import re
+    A = prog.anchors
+    handles = {A.ty("Subscription"): (A.ty("SubscriptionName"), A.cell("SubState", "subscriptions")),
+               A.ty("Topic"): (A.ty("TopicName"), A.cell("TopicState", "topics"))}
+    home = {A.cell("SubState", "subscriptions"), A.cell("TopicState", "topics"), A.cell("TopicActor", "subscriptions")}
+    n = 0
+    for path, adt in sorted(prog.facts.adts.items()):
+        if path.startswith("crate::pubsub_proto"):
+            continue
+        for v in adt["variants"]:
+            for f in v["fields"]:
+                m = re.search(r"std::collections::(?:HashMap|BTreeMap)<(.*)$", f["ty"])
+                if not m:
+                    continue
+                rest = m.group(1)
+                depth, k, vstart = 0, None, 0
+                for i, ch in enumerate(rest):
+                    if ch in "<([":
+                        depth += 1
+                    elif ch in ">)]":
+                        if depth == 0:
+                            break
+                        depth -= 1
+                    elif ch == "," and depth == 0 and k is None:
+                        k = rest[:i].strip()
+                        vstart = i + 1
+                if k is None:
+                    continue
+                v0 = rest[vstart:].strip()
+                for _ in range(4):
+                    m2 = re.match(r"^(?:std::sync::Arc|std::option::Option|std::boxed::Box)<(.*)$", v0)
+                    if not m2:
+                        break
+                    v0 = m2.group(1)
+                for h, (nt, primary) in handles.items():
+                    if not re.match(r"^%s([>, ]|$)" % re.escape(h), v0):
+                        continue
+                    stringish = bool(re.search(r"(^|[<&, ])str([>, ]|$)|::String\b|^String\b", k))
+                    if k != nt and not stringish:
+                        continue
+                    cell = (path, f["name"])
+                    if cell in home:
+                        continue
+                    n += 1
+                    key = "second-registry:%s.%s" % (short_ty(path), f["name"])
+                    if companion_in_lockstep(prog, primary, cell):
+                        out.holds(key, adt.get("span", ""), "kept in step with the manager's map: every removal there removes here")
+                    else:
+                        out.violation(key, adt.get("span", ""), "%s.%s maps names to %s handles next to the manager's map and is not updated when the manager's entry is "
+                                      "removed: after delete + re-create of a name, requests that resolve through it are served by the deleted incarnation (the new "
+                                      "subscription's messages are never delivered, acknowledgements go to the old one)" % (short_ty(path), f["name"], short_ty(h)))
+    out.holds("second-registries", "", "%d map(s) from names to handles outside the managers and the topic actor" % n, nontrivial=False)
+
+
+@rule("C10", "R11.10", "a map from names to handles outside the managers is kept in step with the manager's map (no second registry)", floor=1)
+def r11_10_c10(prog, out):
+    _r11_10(prog, out)
+
+
+@rule("C11", "R11.10", "a map from names to handles outside the managers is kept in step with the manager's map (no second registry)", floor=1)
+def r11_10_c11(prog, out):
+    _r11_10(prog, out)
+
+
+@rule("C01", "R11.10", "a map from names to handles outside the managers is kept in step with the manager's map (no second registry)", floor=1)
+def r11_10_c01(prog, out):
+    _r11_10(prog, out)
+
+
+@rule("C02", "R11.10", "a map from names to handles outside the managers is kept in step with the manager's map (no second registry)", floor=1)
+def r11_10_c02(prog, out):
+    _r11_10(prog, out)
